@@ -138,7 +138,7 @@ def main(tier, seed):
     # line counting itself: Scanner.tla's token lines (comments, line breaks inside strings, the end-of-input token after a final comment
     # without a line break) against the real scanner, for every source of the Broad alphabet
     from checks import c03 as _c03
-    nscan, sscan = _c03.scanner_part(rep, bins[0][1], tier, groups=["Broad"])
+    nscan, sscan = _c03.scanner_part(rep, bins[0][1], tier, groups=["Broad", "Lines"])
     rep.coverage["scanner_sources_for_line_counting"] = nscan
     # compile errors name the line of the offending token
     cases = compile_error_cases(rng, 600 if tier == "quick" else 6000)
